@@ -176,6 +176,8 @@ def check_property(pid, tier, seed):
             violations.append((name, path, ''))
             entry['replay'] = path
             confirmed += 1
+        elif 'refuted' in statuses and r.get('kind') == 'shape':
+            undecided.append('%s %s: the code has a form the contract cannot interpret (%s) and no failing input was found: UNDECIDED, not a violation' % (key, name, r.get('note', '')[:80]))
         elif 'refuted' in statuses:
             payload = {'property': pid, 'function': key, 'obligation': name, 'kind': 'no-failing-input-found',
                        'solver': 'counter-model of the verification condition (complete mode), not reproduced on the real code',
